@@ -244,6 +244,7 @@ func checkC03(c *Ctx, r *Report) {
 	if sizes == nil {
 		undecidedf("no type sizes for the loaded configuration")
 	}
+	exactDurationRule(c, r)
 	r.Rule("R03a", "every lossy SSA numeric conversion in the root package is dominated by facts on the same operand that imply the destination range (strict against 2^63/2^64 for floats, NaN excluded by a true-edge fact)", 4)
 	r.Rule("R03b", "every multiplication producing a time.Duration from a non-constant operand is dominated by facts bounding the operand to MaxInt64/unit", 2)
 	r.Rule("R03c", "every reflect.Value.Convert whose receiver may hold a number is guarded by the false edge of OverflowInt/OverflowUint/OverflowFloat on a zero value of the same type with the same operand, or converts to a provably non-numeric type", 4)
@@ -603,5 +604,70 @@ func accessorTightRule(c *Ctx, r *Report) {
 			r.Check(bad == "", "R06h", name, what, c.Pos(x.Pos()), "the guard admits the whole range of the destination ("+strings.Join(fs.descr, ", ")+")",
 				"the range guard is stricter than the destination type: "+bad+" — an extreme number written into a Config does not come back")
 		})
+	}
+}
+
+// exactDurationRule (R03d): an integer number of seconds becomes a Duration in integer arithmetic. "Stores
+// exactly the mathematical value" fails without any wrap-around when integers are sent through float64
+// (seconds above 2^53 ns / 1e9 lose their low bits). In reifyDuration the integer settings (the int64 / uint64
+// the cfgInt / cfgUint case holds) must each feed a time.Duration multiplication directly — up to integer
+// conversions of the same width — and not a conversion to a floating-point type.
+func exactDurationRule(c *Ctx, r *Report) {
+	r.Rule("R03d", "reifyDuration turns the integer of a cfgInt / cfgUint setting into a Duration by integer multiplication (no detour through float64)", 2)
+	fn := c.Func("", "reifyDuration")
+	name := c.FnName(fn)
+	for _, tn := range []struct{ typ, field string }{{"cfgInt", "i"}, {"cfgUint", "u"}} {
+		intMul, viaFloat := false, false
+		var pos token.Pos
+		Instrs(fn, false, func(in ssa.Instruction) {
+			l, ok := in.(*ssa.UnOp)
+			if !ok || l.Op != token.MUL {
+				return
+			}
+			nt, f, ok := FieldOf(l.X)
+			if !ok || nt.Obj().Name() != tn.typ || f != tn.field {
+				return
+			}
+			pos = l.Pos()
+			// follow the loaded integer through integer conversions to its uses
+			seen := map[ssa.Value]bool{}
+			var walk func(v ssa.Value, d int)
+			walk = func(v ssa.Value, d int) {
+				if seen[v] || d > 8 || v.Referrers() == nil {
+					return
+				}
+				seen[v] = true
+				for _, ref := range *v.Referrers() {
+					switch x := ref.(type) {
+					case *ssa.Convert:
+						if b, ok := x.Type().Underlying().(*types.Basic); ok {
+							if b.Info()&types.IsFloat != 0 {
+								viaFloat = true
+							} else if b.Info()&types.IsInteger != 0 {
+								walk(x, d+1)
+							}
+						}
+					case *ssa.ChangeType:
+						walk(x, d+1) // int64 -> time.Duration: same representation
+					case *ssa.BinOp:
+						if x.Op == token.MUL && strings.HasSuffix(x.Type().String(), "time.Duration") {
+							intMul = true
+						}
+					case *ssa.Phi:
+						walk(x, d+1)
+					}
+				}
+			}
+			walk(l, 0)
+		})
+		what := "integer seconds of " + tn.typ
+		switch {
+		case intMul:
+			r.OK("R03d", name, what, c.Pos(pos), "multiplied into the Duration as an integer")
+		case viaFloat:
+			r.Bad("R03d", name, what, c.Pos(pos), "the integer of a "+tn.typ+" setting is converted to floating point on its way to the Duration: second counts whose nanoseconds exceed 2^53 are stored inexactly (no error)")
+		default:
+			r.Bad("R03d", name, what, c.Pos(fn.Pos()), "reifyDuration does not multiply the integer of a "+tn.typ+" setting into the Duration itself (it goes through another accessor, e.g. toFloat): large second counts are stored inexactly")
+		}
 	}
 }
